@@ -285,6 +285,18 @@ def limits_list(model, owner, fn):
     raise AnalysisError("%s._get_limits is not a constant list" % owner)
 
 
+def appends_const(stmt, name, text):
+    """x += [text]  or  x.append(text)"""
+    if isinstance(stmt, ast.AugAssign) and sysrules.is_name(stmt.target, name) and isinstance(stmt.value, ast.List) and len(stmt.value.elts) == 1:
+        e = stmt.value.elts[0]
+        return isinstance(e, ast.Constant) and e.value == text
+    if isinstance(stmt, ast.Expr) and isinstance(stmt.value, ast.Call) and isinstance(stmt.value.func, ast.Attribute) and stmt.value.func.attr == "append" \
+            and sysrules.is_name(stmt.value.func.value, name) and len(stmt.value.args) == 1:
+        e = stmt.value.args[0]
+        return isinstance(e, ast.Constant) and e.value == text
+    return False
+
+
 # ------------------------------------------------------------------------------------------------ R5
 def r5(model, rep):
     r = sysrules.roles(model)
@@ -333,9 +345,9 @@ def r5(model, rep):
     for s in ast.walk(ploop):
         if isinstance(s, ast.If) and flagmap in {n.id for n in ast.walk(s.test) if isinstance(n, ast.Name)}:
             t = ast.unparse(s.test).replace(" ", "")
-            yes = [a for a in s.body if isinstance(a, ast.AugAssign) and sysrules.is_name(a.target, wname) and ast.unparse(a.value) == "['Yes']"]
-            no = [a for a in s.orelse if isinstance(a, ast.AugAssign) and sysrules.is_name(a.target, wname) and ast.unparse(a.value) == "['']"]
-            if yes and no and (t.endswith(">0") or t.endswith("==1") or t.endswith("!=0")):
+            yes = [a for a in s.body if appends_const(a, wname, "Yes")]
+            no = [a for a in s.orelse if appends_const(a, wname, "")]
+            if yes and no and (t.endswith(">0") or t.endswith("==1") or t.endswith("!=0") or t.startswith("0<") or t.startswith("1==") or t.startswith("0!=")):
                 ok = True
     if not ok:
         rep.violation("R5", "system.System.solve", where, "a Subsystem row does not say 'Yes' exactly when its domain's flag is set", "subsystem yes")
@@ -343,8 +355,8 @@ def r5(model, rep):
     ok = False
     for s in ast.walk(ploop):
         if isinstance(s, ast.If) and ast.unparse(s.test) in ("any(%s)" % wname, "any([x != '' for x in %s])" % wname, "any((x != '' for x in %s))" % wname):
-            yes = [a for a in s.body if isinstance(a, ast.AugAssign) and sysrules.is_name(a.target, wname) and ast.unparse(a.value) == "['Yes']"]
-            no = [a for a in s.orelse if isinstance(a, ast.AugAssign) and sysrules.is_name(a.target, wname) and ast.unparse(a.value) == "['']"]
+            yes = [a for a in s.body if appends_const(a, wname, "Yes")]
+            no = [a for a in s.orelse if appends_const(a, wname, "")]
             if yes and no:
                 ok = True
     if not ok:
